@@ -90,6 +90,10 @@ func (e *env) execLine(toks []string) (st, payload string) {
 	}
 
 	o := e.safeDispatch(cmd, args, binding)
+	for _, f := range e.after {
+		f()
+	}
+	e.after = nil
 
 	if binding {
 		if o.st == "ok" && o.bind != nil {
@@ -426,7 +430,7 @@ func (e *env) dispatch(cmd string, a []string, binding bool) outcome {
 		if n != 3 {
 			return oBad
 		}
-		conf, st1 := parseConf(a[0])
+		conf, st1 := e.parseConf(a[0])
 		x, st2 := parseFloat(a[2])
 		if st1 != "" || st2 != "" {
 			return oBad
@@ -441,7 +445,7 @@ func (e *env) dispatch(cmd string, a []string, binding bool) outcome {
 		if n != 2 {
 			return oBad
 		}
-		conf, st1 := parseConf(a[0])
+		conf, st1 := e.parseConf(a[0])
 		if st1 != "" {
 			return oBad
 		}
@@ -458,7 +462,7 @@ func (e *env) dispatch(cmd string, a []string, binding bool) outcome {
 		if n != 2 {
 			return oBad
 		}
-		conf, st1 := parseConf(a[0])
+		conf, st1 := e.parseConf(a[0])
 		d, st2 := parseInt(a[1])
 		if st1 != "" || st2 != "" {
 			return oBad
@@ -469,7 +473,7 @@ func (e *env) dispatch(cmd string, a []string, binding bool) outcome {
 		if n != 4 {
 			return oBad
 		}
-		conf, st1 := parseConf(a[0])
+		conf, st1 := e.parseConf(a[0])
 		p, st2 := parseFloat(a[2])
 		q, st3 := parseFloat(a[3])
 		if st1 != "" || st2 != "" || st3 != "" {
@@ -489,7 +493,7 @@ func (e *env) dispatch(cmd string, a []string, binding bool) outcome {
 		if n != 2 && n != 3 {
 			return oBad
 		}
-		conf, st1 := parseConf(a[0])
+		conf, st1 := e.parseConf(a[0])
 		if st1 != "" {
 			return oBad
 		}
@@ -804,6 +808,7 @@ func (e *env) dispatch(cmd string, a []string, binding bool) outcome {
 				return oBad
 			}
 			conf = &activations.LeakyReluConfig{M: m}
+			e.later(func() { conf.M = 123.5 })
 		}
 		var l *activations.LeakyRelu
 		st := e.guard(func() error { l = activations.NewLeakyRelu(conf); return nil })
@@ -823,6 +828,7 @@ func (e *env) dispatch(cmd string, a []string, binding bool) outcome {
 				return oBad
 			}
 			conf = &activations.SoftmaxConfig{Dim: d}
+			e.later(func() { conf.Dim = -7 })
 		}
 		var l *activations.Softmax
 		st := e.guard(func() error {
@@ -1000,6 +1006,7 @@ func (e *env) dispatch(cmd string, a []string, binding bool) outcome {
 				return oBad
 			}
 			conf = &optimizers.SGDConfig{LearningRate: lr}
+			e.later(func() { conf.LearningRate = 123.5 })
 		}
 		var o *optimizers.SGD
 		st := e.guard(func() error { o = optimizers.NewSGD(conf); return nil })
@@ -1124,6 +1131,7 @@ func (e *env) cmdInit(a []string) outcome {
 				return oBad
 			}
 			conf = &initializers.FullConfig{Value: fs[0]}
+			e.later(func() { conf.Value = 123.5 })
 		}
 		build = func() (layers.Initializer, error) { return initializers.NewFull(conf), nil }
 
@@ -1135,6 +1143,7 @@ func (e *env) cmdInit(a []string) outcome {
 				return oBad
 			}
 			conf = &initializers.UniformConfig{Lower: fs[0], Upper: fs[1]}
+			e.later(func() { conf.Lower, conf.Upper = 500, 400 })
 		}
 		build = func() (layers.Initializer, error) { return initializers.NewUniform(conf) }
 
@@ -1146,6 +1155,7 @@ func (e *env) cmdInit(a []string) outcome {
 				return oBad
 			}
 			conf = &initializers.NormalConfig{Mean: fs[0], StdDev: fs[1]}
+			e.later(func() { conf.Mean, conf.StdDev = 500, -1 })
 		}
 		build = func() (layers.Initializer, error) { return initializers.NewNormal(conf) }
 
@@ -1157,6 +1167,7 @@ func (e *env) cmdInit(a []string) outcome {
 				return oBad
 			}
 			conf = &initializers.HeUniformConfig{FanIn: is[0]}
+			e.later(func() { conf.FanIn = -3 })
 		}
 		build = func() (layers.Initializer, error) { return initializers.NewHeUniform(conf) }
 
@@ -1168,6 +1179,7 @@ func (e *env) cmdInit(a []string) outcome {
 				return oBad
 			}
 			conf = &initializers.HeNormalConfig{FanIn: is[0]}
+			e.later(func() { conf.FanIn = -3 })
 		}
 		build = func() (layers.Initializer, error) { return initializers.NewHeNormal(conf) }
 
@@ -1179,6 +1191,7 @@ func (e *env) cmdInit(a []string) outcome {
 				return oBad
 			}
 			conf = &initializers.XavierUniformConfig{FanIn: is[0], FanOut: is[1]}
+			e.later(func() { conf.FanIn, conf.FanOut = -3, -4 })
 		}
 		build = func() (layers.Initializer, error) { return initializers.NewXavierUniform(conf) }
 
@@ -1190,6 +1203,7 @@ func (e *env) cmdInit(a []string) outcome {
 				return oBad
 			}
 			conf = &initializers.XavierNormalConfig{FanIn: is[0], FanOut: is[1]}
+			e.later(func() { conf.FanIn, conf.FanOut = -3, -4 })
 		}
 		build = func() (layers.Initializer, error) { return initializers.NewXavierNormal(conf) }
 
@@ -1226,6 +1240,12 @@ func (e *env) cmdFC(a []string) outcome {
 		}
 		outputs = out
 		conf = &layers.FCConfig{Inputs: in, Outputs: out}
+		e.later(func() {
+			conf.Inputs, conf.Outputs = -5, -6
+			for k := range conf.Initializers {
+				conf.Initializers[k] = nil
+			}
+		})
 		seen := map[string]bool{}
 		for _, tok := range a[2:] {
 			var key string
